@@ -607,3 +607,128 @@ theorem sim_run (cs : SpaceMap) (hdev : devOk cs) (prog : List SOp) (st : IState
     exact he2
 
 end PdfVerif.PathLemmas
+
+namespace PdfVerif.PathLemmas
+open PdfVerif PdfVerif.Paths PdfVerif.PathSpec PdfVerif.Gen.PathsGen
+
+/-! ### the initial states -/
+
+def proj (e : String × Space) : String × Nat := (e.1, e.2.n)
+
+theorem lookup_proj (m : SpaceMap) (name : String) :
+    (m.map proj).lookup name = (m.lookup name).map (·.n) := by
+  induction m with
+  | nil => rfl
+  | cons e rest ih =>
+    obtain ⟨k, sp⟩ := e
+    simp only [List.map_cons, proj, List.lookup_cons]
+    cases name == k <;> simp [ih, proj]
+
+theorem csInsert_proj (m : SpaceMap) (name : String) (sp : Space) :
+    csInsert (m.map proj) name sp.n = (insertSpace m name sp).map proj := by
+  unfold csInsert insertSpace
+  rw [lookup_proj]
+  cases h : m.lookup name with
+  | none => simp [proj]
+  | some v =>
+    simp only [Option.map_some, Option.isSome_some, if_true, List.map_map]
+    apply List.map_congr_left
+    intro e _
+    simp only [Function.comp, proj]
+    by_cases he : (e.1 == name) = true <;> simp [he]
+
+theorem fold_proj (res : List (String × CsSpec)) (m : SpaceMap) :
+    res.foldl (fun m (e : String × CsSpec) =>
+      match e.2 with
+      | .icc n => csInsert m e.1 n
+      | .devn n => csInsert m e.1 n
+      | .named base =>
+        match PREDEFINED_COLORSPACE.lookup base with
+        | some n => csInsert m e.1 n
+        | none => m) (m.map proj) =
+    (res.foldl (fun m (e : String × CsSpec) =>
+      match e.2 with
+      | .icc n => insertSpace m e.1 ⟨n, false⟩
+      | .devn n => insertSpace m e.1 ⟨n, false⟩
+      | .named base =>
+        match PREDEFINED_COLORSPACE.lookup base with
+        | some n => insertSpace m e.1 (spaceOf base n)
+        | none => m) m).map proj := by
+  induction res generalizing m with
+  | nil => rfl
+  | cons e rest ih =>
+    simp only [List.foldl_cons]
+    obtain ⟨name, spec⟩ := e
+    cases spec with
+    | icc n => simp only; rw [← ih]; congr 1; exact csInsert_proj m name ⟨n, false⟩
+    | devn n => simp only; rw [← ih]; congr 1; exact csInsert_proj m name ⟨n, false⟩
+    | named base =>
+      simp only
+      cases PREDEFINED_COLORSPACE.lookup base with
+      | none => simp only; exact ih m
+      | some n => simp only; rw [← ih]; congr 1; exact csInsert_proj m name (spaceOf base n)
+
+theorem initCsmap_proj (res : List (String × CsSpec)) : initCsmap res = (initSpaces res).map proj := by
+  unfold initCsmap initSpaces
+  have h0 : PREDEFINED_COLORSPACE =
+      (PREDEFINED_COLORSPACE.map (fun e => (e.1, spaceOf e.1 e.2))).map proj := by
+    simp [List.map_map, Function.comp_def, proj, spaceOf]
+  have := fold_proj res (PREDEFINED_COLORSPACE.map (fun e => (e.1, spaceOf e.1 e.2)))
+  rw [← h0] at this
+  exact this
+
+theorem insertSpace_head (k0 : String) (sp0 : Space) (rest0 : SpaceMap) (name : String) (sp : Space) :
+    ∃ sp' rest', insertSpace ((k0, sp0) :: rest0) name sp = (k0, sp') :: rest' := by
+  unfold insertSpace
+  split
+  · simp only [List.map_cons]
+    by_cases he : (k0 == name) = true
+    · have : name = k0 := (eq_of_beq he).symm
+      subst this
+      refine ⟨sp, List.map (fun e => if (e.fst == name) = true then (name, sp) else e) rest0, ?_⟩
+      simp
+    · simp only [he, Bool.false_eq_true, if_false]
+      exact ⟨_, _, rfl⟩
+  · exact ⟨_, _, rfl⟩
+
+theorem initSpaces_head (res : List (String × CsSpec)) :
+    ∃ sp rest, initSpaces res = ("DeviceGray", sp) :: rest := by
+  unfold initSpaces
+  have h0 : ∃ sp rest, PREDEFINED_COLORSPACE.map (fun e => (e.1, spaceOf e.1 e.2)) = ("DeviceGray", sp) :: rest :=
+    ⟨_, _, rfl⟩
+  generalize PREDEFINED_COLORSPACE.map (fun e => (e.1, spaceOf e.1 e.2)) = m at h0
+  induction res generalizing m with
+  | nil => exact h0
+  | cons e rest ih =>
+    simp only [List.foldl_cons]
+    apply ih
+    obtain ⟨sp, r, rfl⟩ := h0
+    obtain ⟨name, spec⟩ := e
+    cases spec with
+    | icc n => exact insertSpace_head _ _ _ _ _
+    | devn n => exact insertSpace_head _ _ _ _ _
+    | named base =>
+      simp only
+      cases PREDEFINED_COLORSPACE.lookup base with
+      | none => exact ⟨_, _, rfl⟩
+      | some n => exact insertSpace_head _ _ _ _ _
+
+/-- The interpreter's initial state simulates the specification's initial state. -/
+theorem sim_init (ctm : Matrix) (res : List (String × CsSpec)) (hdev : devOk (initSpaces res)) :
+    Sim (initSpaces res) (initState ctm res) (initS ctm) := by
+  obtain ⟨sp, rest, hh⟩ := initSpaces_head res
+  have hsp : sp = ⟨1, false⟩ := by
+    have := hdev.1
+    rw [hh] at this
+    simpa [List.lookup_cons] using this
+  have hc : initCsmap res = ("DeviceGray", 1) :: rest.map proj := by
+    rw [initCsmap_proj, hh, hsp]; rfl
+  exact { ctm := rfl,
+          gs := by simp [initState, hc, initS, gsOf],
+          gstack := rfl, path := rfl, ok := trivial, out := rfl,
+          csmap := by
+            intro name
+            simp only [initState, csLookup]
+            rw [initCsmap_proj, lookup_proj] }
+
+end PdfVerif.PathLemmas
